@@ -473,6 +473,10 @@ def LatestAt (c : Client) (s : State) (u : Url) : Prop :=
 
 def Latest (c : Client) (s : State) : Prop := ∀ u, LatestAt c s u
 
+/-- `LatestAt` is decidable (the driver op `srvseq` prints it per URL) -/
+instance (c : Client) (s : State) (u : Url) : Decidable (LatestAt c s u) := by
+  unfold LatestAt; infer_instance
+
 /-- a history step: the client touches a file, or sends a message -/
 inductive Op where
   | disk (u : Url) (t : Option Text)
@@ -535,5 +539,36 @@ def clientOfAct (c : Client) : Act → Client
   | _ => c
 
 def clientAfter (as : List Act) : Client := as.foldl clientOfAct Client.init
+
+/-! ## the schedule of a history executed one handler at a time
+
+`seqRun` is the big-step reading of "one handler at a time"; `seqActs` is the same history as a list
+of CLIENT ACTIONS for the scheduler (`runMacro`): every message is followed at once by the answers to
+its handler's configuration requests, each carrying the client's configuration. The driver op
+`srvseq` runs both on the same `Op` list; `Lemmas/Server.lean` (`macro_is_seq`) proves they end in
+the same state. -/
+
+/-- the number of `Seg.pull` of a program: an upper bound of the configuration requests its handler
+sends (a `readDisk` that fails skips one). Answers nobody waits for are ignored by `reply`. -/
+def pullCount : List Seg → Nat
+  | [] => 0
+  | .pull :: rest => pullCount rest + 1
+  | _ :: rest => pullCount rest
+
+/-- the client's side of one history step -/
+def clientOfOp (c : Client) : Op → Client
+  | .disk _ _ => c
+  | .msg m => clientStep c m
+
+/-- one history step as client actions: the message, then one answer (to the oldest — the only —
+outstanding request, with the client's configuration) per configuration request of its handler -/
+def actsOfOp (c : Client) : Op → List Act
+  | .disk u t => [.disk u t]
+  | .msg m => .recv m :: List.replicate (pullCount (prog m).1) (.reply 0 (clientStep c m).ck)
+
+/-- the sequential schedule of a history, for a client that starts as `c` -/
+def seqActs : Client → List Op → List Act
+  | _, [] => []
+  | c, op :: ops => actsOfOp c op ++ seqActs (clientOfOp c op) ops
 
 end Harper.Server
